@@ -43,6 +43,10 @@ def cm_configs(tier):
                         depth=D, saveload=False))
         out.append(dict(kind="log16", args=[w, d, 10**6, 10], S=2, mults=[1, 3], ngrams=[],
                         depth=D, saveload=False, near_top=True))
+    # the DEFAULT log16 configuration and one whose ceiling decodes a hair below max_count
+    for a in ([1, 1], [2, 2, 70000, 15]):
+        out.append(dict(kind="log16", args=a, S=2, mults=[1], ngrams=[], depth=2 if tier == "quick" else 3,
+                        saveload=False, near_top=True))
     return out
 
 
@@ -73,8 +77,10 @@ def task(arg):
             if cfg.get("near_top"):
                 A, B = cfg["keys"][0], cfg["keys"][1]
                 top = 65535
-                extra = [[("set", 0, A, top - 3, 10**6 - 200)], [("set", 0, A, top - 1, 10**6 - 60),
-                         ("set", 1, B, top, 10**6)], [("set", 1, A, top - 2, 10**6 - 130)]]
+                mc_ = int(cfg["args"][2]) if len(cfg["args"]) > 2 else 2**32 - 1
+                extra = [[("set", 0, A, top - 3, mc_ - 200)], [("set", 0, A, top - 1, mc_ - 60),
+                         ("set", 1, B, top, mc_)], [("set", 1, A, top - 2, mc_ - 130)],
+                         [("set", 0, A, top, mc_)], [("set", 0, A, top, mc_), ("set", 1, A, top, mc_)]]
             st = sysm.explore(cfg, cfg["depth"], sub, time_cap=1200 if tier == "thorough" else 150,
                               extra_init=extra)
             name = C.label(cfg)
@@ -82,6 +88,7 @@ def task(arg):
             keys, ng = H.hh_alphabet(cfg["args"], seed)
             cfg = dict(cfg)
             cfg["keys"] = [keys[0], keys[1], keys[-1]]
+            cfg["dict_updates"] = True
             st = H.HHSys(scratch, "c18").explore(
                 cfg, cfg["depth"], sub, time_cap=1200 if tier == "thorough" else 150)
             name = f"hh-{cfg['args']}-S{cfg['S']}"
